@@ -397,6 +397,35 @@ PURE_CALLS = {
 }
 
 
+def split_parallel_assignments(fn, recorded_names):
+    """`a, b = e1, e2` binding only locals the record does not know, none of which is read on the right-hand side,
+    becomes `a = e1; b = e2` (so that each can be treated as the alias it is)."""
+    k = 0
+    for owner, blk in _blocks(fn):
+        i = 0
+        while i < len(blk):
+            st = blk[i]
+            if (
+                isinstance(st, ast.Assign)
+                and len(st.targets) == 1
+                and isinstance(st.targets[0], ast.Tuple)
+                and isinstance(st.value, ast.Tuple)
+                and len(st.targets[0].elts) == len(st.value.elts)
+                and all(isinstance(x, ast.Name) and x.id not in recorded_names for x in st.targets[0].elts)
+            ):
+                tnames = {x.id for x in st.targets[0].elts}
+                if not any(isinstance(x, ast.Name) and x.id in tnames for v in st.value.elts for x in ast.walk(v)) and len(tnames) == len(st.targets[0].elts):
+                    new = [ast.copy_location(ast.Assign(targets=[tg], value=v), st) for tg, v in zip(st.targets[0].elts, st.value.elts)]
+                    for x in new:
+                        ast.fix_missing_locations(x)
+                    blk[i : i + 1] = new
+                    k += 1
+                    i += len(new)
+                    continue
+            i += 1
+    return k
+
+
 def inline_new_locals(fn, recorded_names):
     """Undo `extract variable`: a local the recorded source did not have, bound once by `v = E` where nothing E
     reads is written afterwards in the function, is replaced by E at its uses (calls only when used once)."""
@@ -551,15 +580,28 @@ def _helper_shape(fn):
     return ("stmts", stmts, ret)
 
 
+_SEQ = [0]
+
+
 def _relocate(node, ref):
     """Give every node of an inlined fragment the source position of the call it replaces (rules order statements
     by line number; the helper's own lines lie elsewhere in the file)."""
-    for n in ast.walk(node):
+    base = int(getattr(ref, "lineno", 1))
+    _SEQ[0] += 1
+    k = [0]
+
+    def visit(n):
         if hasattr(n, "lineno") or isinstance(n, (ast.expr, ast.stmt)):
-            n.lineno = getattr(ref, "lineno", 1)
-            n.end_lineno = getattr(ref, "end_lineno", getattr(ref, "lineno", 1))
+            k[0] += 1
+            # same source line as the call, ordered after earlier fragments and in the fragment's own order
+            n.lineno = base + min(0.9, _SEQ[0] * 1e-3) * 0.1 + min(k[0], 9999) * 1e-6
+            n.end_lineno = n.lineno
             n.col_offset = getattr(ref, "col_offset", 0)
             n.end_col_offset = getattr(ref, "end_col_offset", 0)
+        for ch in ast.iter_child_nodes(n):
+            visit(ch)
+
+    visit(node)
     return node
 
 
@@ -684,6 +726,14 @@ def inline_new_helpers(project, rec):
                             ren[p_] = ast.Name(id=nm, ctx=ast.Load())
                     hl = {n.id for n in ast.walk(hfi.node) if isinstance(n, ast.Name) and isinstance(n.ctx, (ast.Store, ast.Del))} - set(ps)
                     lren = {n: (f"{n}_h{_H[0]}" if n in used else n) for n in hl}
+                    direct = None
+                    if form == "assign" and isinstance(st.targets[0], ast.Name) and isinstance(sh[2], ast.Name) and sh[2].id in hl:
+                        # `target = helper()` where the helper returns one of its locals: that local *is* the target
+                        direct = st.targets[0].id
+                        if not any(isinstance(x, ast.Name) and x.id == direct for b_ in sh[1] for x in ast.walk(b_)) or direct == sh[2].id:
+                            lren[sh[2].id] = direct
+                        else:
+                            direct = None
 
                     class R(ast.NodeTransformer):
                         def visit_Name(self, n):
@@ -697,7 +747,9 @@ def inline_new_helpers(project, rec):
                     tail = []
                     if sh[2] is not None:
                         rv = R().visit(copy.deepcopy(sh[2]))
-                        if form == "assign":
+                        if form == "assign" and direct is not None:
+                            tail = []
+                        elif form == "assign":
                             tail = [ast.copy_location(ast.Assign(targets=copy.deepcopy(st.targets), value=rv), st)]
                         elif form == "return":
                             tail = [ast.copy_location(ast.Return(value=rv), st)]
@@ -783,6 +835,7 @@ def normalise(project, path=PINNED):
                 progress += k
                 if not progress:
                     # only when renaming / mirroring / re-extraction have settled: what is still unrecorded is new
+                    progress += split_parallel_assignments(fi.node, rec_names)
                     k = inline_new_locals(fi.node, rec_names)
                     stats["locals_inlined"] += k
                     progress += k
